@@ -287,6 +287,17 @@ impl World {
         self.beat.fetch_add(1, Ordering::Relaxed);
         self.rt.poll_task(id);
         let after = self.rt.info(id);
+        // Evidence for the lease analysis (always recorded, independent of `record_at`):
+        //  * every step that starts or ends at a scheduling point inside bucket.rs, with the label it left
+        //    and the label it parked at (the lease set is read/assigned/checked in exactly these steps);
+        //  * the statements of the code under test kept by `logcap` (who refreshed which node's leases with
+        //    which expected set; rejected lease checks), stamped with this step and this task.
+        if info.at.starts_with("bucket.rs:") || after.at.starts_with("bucket.rs:") {
+            self.events.push(json!({"ev":"at","step":self.step,"task":info.name,"from":info.at,"to":after.at}));
+        }
+        for m in crate::logcap::take() {
+            self.events.push(json!({"ev":"log","step":self.step,"task":info.name,"msg":m}));
+        }
         if self.record_at {
             self.taken.push(format!("{}@{}", info.name, after.at));
         } else {
@@ -429,6 +440,7 @@ pub fn run_job(job: &Value, dir: &Path, beat: &std::sync::Arc<AtomicU64>) -> Vec
     std::fs::create_dir_all(dir).expect("scratch dir");
 
     let rt = sim::install();
+    let _ = crate::logcap::take();
     let cluster = Cluster::new();
     let nodes: Rc<RefCell<Vec<Node>>> = Rc::new(RefCell::new(Vec::new()));
     let log: Log = Rc::new(RefCell::new(Vec::new()));
@@ -598,6 +610,12 @@ pub fn run_job(job: &Value, dir: &Path, beat: &std::sync::Arc<AtomicU64>) -> Vec
             Choice::Poll(id) => w.do_poll(id),
             Choice::FireTimer => w.do_fire(),
             Choice::Unrealizable(why) => {
+                // A scripted step the code cannot follow (task blocked/finished/never reaches the named
+                // scheduling point). The run is NOT abandoned: the step is skipped, the rest of the script
+                // is followed as far as possible, and after the script (or after 50 such steps) the default
+                // policy finishes the clients, so that the history is complete and is judged against the
+                // contract like any other. `unrealizable` and the first reason go into the `end` event;
+                // what a non-zero count means is the checker's business (props_cluster.py, UNREALIZABLE POLICY).
                 unrealizable += 1;
                 if note.is_empty() {
                     note = format!("unrealizable: {}", why);
